@@ -21,7 +21,8 @@ def main():
     seed = int(os.environ.get('VERIF_SEED', '0'))
     mod = importlib.import_module('props.' + pid.lower())
     units = mod.units()
-    return framework.run_check(pid, units, tier, seed, default_imports=getattr(mod, 'IMPORTS', ''),
+    return framework.run_check(pid, units, tier, seed, props_files=getattr(mod, 'PROPS_FILES', None),
+                               default_imports=getattr(mod, 'IMPORTS', ''),
                                level_note=getattr(mod, 'LEVEL_NOTE', ''))
 
 
